@@ -1094,6 +1094,58 @@ impl Drop for VersionRef<'_> {
     }
 }
 
+////////////////////////////////////////// SnapshotCursor //////////////////////////////////////////
+
+/// A cursor over a snapshot of the tree that owns the snapshot.
+///
+/// The cursors of a version open their files lazily, by path, on first use.  Holding the
+/// [VersionRef] keeps the version referenced, and with it every file of the version in `sst/`,
+/// until the cursor is dropped.
+pub struct SnapshotCursor<'a, C: Cursor> {
+    // NOTE:  Fields drop in declaration order:  The cursor goes before the reference it relies on.
+    cursor: C,
+    _version: VersionRef<'a>,
+}
+
+impl<'a, C: Cursor> SnapshotCursor<'a, C> {
+    pub(crate) fn new(cursor: C, version: VersionRef<'a>) -> Self {
+        Self {
+            cursor,
+            _version: version,
+        }
+    }
+}
+
+impl<C: Cursor> Cursor for SnapshotCursor<'_, C> {
+    fn seek_to_first(&mut self) -> Result<(), SError> {
+        self.cursor.seek_to_first()
+    }
+
+    fn seek_to_last(&mut self) -> Result<(), SError> {
+        self.cursor.seek_to_last()
+    }
+
+    fn seek(&mut self, key: &[u8]) -> Result<(), SError> {
+        self.cursor.seek(key)
+    }
+
+    fn prev(&mut self) -> Result<(), SError> {
+        self.cursor.prev()
+    }
+
+    fn next(&mut self) -> Result<(), SError> {
+        self.cursor.next()
+    }
+
+    fn key(&self) -> Option<KeyRef<'_>> {
+        self.cursor.key()
+    }
+
+    fn value(&self) -> Option<&[u8]> {
+        self.cursor.value()
+    }
+}
+
 ////////////////////////////////////////////// LsmTree /////////////////////////////////////////////
 
 pub struct LsmTree {
@@ -1701,7 +1753,8 @@ impl LsmTree {
         let version_scan = version.range_scan(start_bound, end_bound, u64::MAX)?;
         let cursor = PruningCursor::new(version_scan, u64::MAX)?;
         let cursor = BoundsCursor::new(cursor, start_bound, end_bound)?;
-        Ok(cursor)
+        // NOTE:  The cursor opens its files lazily; it must keep the version referenced.
+        Ok(SnapshotCursor::new(cursor, version))
     }
 }
 
